@@ -5,6 +5,8 @@ import (
 	"strings"
 	"time"
 
+	"verif/checks/c01"
+	"verif/checks/c10"
 	"verif/checks/expo"
 	"verif/fw"
 	"verif/wm"
@@ -13,11 +15,11 @@ import (
 func init() { fw.Register("C06", "exploration", Run) }
 
 func Run(r *fw.Run) {
-	r.Rule = "NetworkPolicy worlds from the exposure selector alphabet (entire-cluster spellings, nil / explicit namespace selectors, all four expression operators, equivalent and collision-forcing spellings, ipBlock, named ports); for each world list runs with and without --exposure; (a) relations equal, (b) protected flags = reference, (c) every entry x every class of hypothetical pods satisfying its selectors x every port cell: the reference must allow what the entry claims; non-trivial = at least one exposure entry reported; distinct = distinct exposure reports"
+	r.Rule = "NetworkPolicy worlds from the exposure selector alphabet (entire-cluster spellings, nil / explicit namespace selectors, all four expression operators, equivalent and collision-forcing spellings, ipBlock, named ports); for each world list runs with and without --exposure; (a) relations equal, (b) protected flags = reference, (c) every entry x every class of hypothetical pods satisfying its selectors x every port cell: the reference must allow what the entry claims; non-trivial = at least one exposure entry reported; distinct = distinct exposure reports; clause (a) is additionally evaluated on (strided) worlds of the C01 NetworkPolicy scopes and the C10 Service / Ingress / Route scopes"
 	r.Assume = []string{"hypothetical pods are enumerated as the finite quotient over the label/namespace/named-port vocabulary of the world's policies plus one fresh value per key and a fresh namespace: every pod of a class gets the same verdict from every selector over that vocabulary",
 		"a named port in an entry means the port the hypothetical pod declares under that name with that protocol (nothing if it declares none)"}
 	if r.Quick() {
-		r.SetBudget(150 * time.Second)
+		r.SetBudget(300 * time.Second)
 	} else {
 		r.SetBudget(30 * time.Minute)
 	}
@@ -43,6 +45,46 @@ func Run(r *fw.Run) {
 			if res.Entries > 0 && res.Skipped == "" {
 				x.Nontrivial(res.Outcome)
 				x.Sample(map[string]any{"world": w.Brief(), "exposure": expo.First(strings.Split(res.Outcome, ";"), 6), "hypothetical_pod_classes": res.Hyps})
+			}
+		})
+	}
+	// clause (a) alone on the worlds of other alphabets (NetworkPolicy shapes of C01, Service / Ingress / Route worlds of C10):
+	// the flag must not change the reported connectivity, {ingress-controller} lines included
+	type src struct {
+		name   string
+		gen    func(*fw.Ctx) *wm.World
+		stride int
+	}
+	var srcs []src
+	for _, sc := range c01.Scopes(true) {
+		srcs = append(srcs, src{"base-untouched/c01-" + sc.Name, sc.Gen, map[string]int{"S-ports": 3, "S-sel-ip": 3, "S-multi": 4}[sc.Name]})
+	}
+	srcs = append(srcs, src{"base-untouched/c10-ingress", c10.GenIngress, 40}, src{"base-untouched/c10-route", c10.GenRoute, 80}, src{"base-untouched/c10-ingress+route", c10.GenBoth, 4})
+	for _, sc := range srcs {
+		sc := sc
+		st := sc.stride
+		if !r.Quick() {
+			st = (st + 3) / 4
+		}
+		fw.Explore(r, sc.name, fw.Full, func(c *fw.Ctx) *wm.World {
+			w := sc.gen(c)
+			if len(w.ANPs) > 0 || w.BANP != nil {
+				c.Skip() // exposure analysis refuses admin policies up front
+			}
+			c.Stride(st)
+			return w
+		}, func(w *wm.World, x *fw.Rec) {
+			res := expo.BaseOnly(w)
+			x.Describe(expo.Describe(w))
+			x.Outcome(res.Outcome)
+			for _, b := range res.WF {
+				x.Fail("result not well-formed (C05 invariant) with exposure: "+b, "", strings.Join(res.WF, "\n"))
+			}
+			for _, b := range res.BaseDiffers {
+				x.Fail("base connectivity differs with --exposure", "", b)
+			}
+			if res.Skipped == "" && res.Outcome != "" {
+				x.Nontrivial(res.Outcome)
 			}
 		})
 	}
